@@ -20,4 +20,4 @@ run_one() {
   if [ "$rc" = "$want" ]; then echo "OK $name $prop exit=$rc"; else echo "FAIL $name $prop exit=$rc want=$want: $(echo "$out" | grep -B1 '^VIOLATION' | grep -v '^VIOLATION\|^--' | cut -c1-220 | head -2 | tr '\n' '|')"; fi
 }
 export -f run_one
-ls -d $dir/*/ | grep "$filter" | xargs -P 4 -I{} bash -c "run_one {} $want"
+ls -d $dir/*/ | grep "$filter" | xargs -P ${REGRESS_P:-4} -I{} bash -c "run_one {} $want"
